@@ -43,6 +43,11 @@ pub struct Scen {
     pub fault: Fault,
     /// after an error (not a stop) keep using the same server handle
     pub reuse_handle: bool,
+    /// short continuation (quick tier, git with a remote): the interrupted replica retries, the
+    /// other replica commits and syncs, the first syncs again, the two are compared; the third
+    /// replica, the chain replay and the protocol probe are left to the thorough tier
+    #[serde(default)]
+    pub short: bool,
 }
 
 thread_local! {
@@ -296,6 +301,19 @@ pub fn run_scenario(sc: &Scen, record_only: bool) -> Result<Vec<String>, String>
         let mut hb = b.open(1).await;
         sync(&mut bb, &mut hb).await.map_err(|e| format!("other-replica-stuck: another replica cannot sync after the fault: {e}"))?;
         sync(&mut a, &mut ha).await.map_err(|e| format!("interrupted-replica-stuck: second sync of the interrupted replica failed: {e}"))?;
+        if sc.short {
+            drop((ha, hb));
+            let (ta, tb) = (tasks_of(&mut a).await, tasks_of(&mut bb).await);
+            if ta != tb {
+                return Err(format!("divergence: after the fault and further syncs A holds {}, B holds {}", tasks_str(&ta), tasks_str(&tb)));
+            }
+            let want_a = ta.get(&tid(1)).and_then(|m| m.get("p")).map(|s| s.as_str()) == Some("fromA") && ta.contains_key(&tid(2));
+            let want_b = ta.get(&tid(1)).and_then(|m| m.get("q")).map(|s| s.as_str()) == Some("fromB") && ta.contains_key(&tid(3));
+            if !want_a || !want_b {
+                return Err(format!("lost-change: after the fault and further syncs the replicas hold {} (changes of A and B must both be there)", tasks_str(&ta)));
+            }
+            return Ok(());
+        }
         sync(&mut bb, &mut hb).await.map_err(|e| format!("other-replica-stuck: second sync of the other replica failed: {e}"))?;
         // a third, new replica
         let mut c = Mem::default();
@@ -349,15 +367,15 @@ fn probe_as_cloud(_p: &mut Box<dyn Server>) -> Option<&mut verif::VerifCloudServ
 }
 
 fn scenarios_for(backend: BackendKind, target: Target) -> Result<Vec<Scen>, String> {
-    let rec = Scen { backend, target, point: usize::MAX, fault: Fault::Stop, reuse_handle: false };
+    let rec = Scen { backend, target, point: usize::MAX, fault: Fault::Stop, reuse_handle: false, short: false };
     let points = run_scenario(&rec, true).map_err(|e| format!("recording run failed for {backend:?}/{target:?}: {e}"))?;
     let mut v = vec![];
     for k in 0..points.len() {
         let faults: Vec<Fault> = if backend == BackendKind::Cloud { vec![Fault::ErrorBefore, Fault::ErrorAfter, Fault::Stop] } else { vec![Fault::ErrorBefore, Fault::Stop] };
         for f in faults {
-            v.push(Scen { backend, target, point: k, fault: f, reuse_handle: false });
+            v.push(Scen { backend, target, point: k, fault: f, reuse_handle: false, short: false });
             if f != Fault::Stop {
-                v.push(Scen { backend, target, point: k, fault: f, reuse_handle: true });
+                v.push(Scen { backend, target, point: k, fault: f, reuse_handle: true, short: false });
             }
         }
     }
@@ -377,6 +395,11 @@ pub fn run(opts: &Opts) -> i32 {
         (BackendKind::Cloud, Target::AddSnapshot),
         (BackendKind::GitLocal, Target::SyncAddVersion),
     ];
+    if q {
+        // git with a shared remote, quick tier: only the steps from the local commit to the push -
+        // the window in which the clone and the remote can come to disagree
+        plan.push((BackendKind::GitRemote, Target::SyncAddVersion));
+    }
     if !q {
         plan.push((BackendKind::GitLocal, Target::AddSnapshot));
         plan.push((BackendKind::GitRemote, Target::SyncAddVersion));
@@ -395,8 +418,25 @@ pub fn run(opts: &Opts) -> i32 {
                 return 2;
             }
         };
-        let rec = Scen { backend, target, point: usize::MAX, fault: Fault::Stop, reuse_handle: false };
+        let rec = Scen { backend, target, point: usize::MAX, fault: Fault::Stop, reuse_handle: false, short: false };
         let points = run_scenario(&rec, true).unwrap_or_default();
+        let scs: Vec<Scen> = if q && backend == BackendKind::GitRemote {
+            // every fault kind from the commit on; before it only a process stop with the files
+            // written / staged (an error there is rolled back in the same way as without a remote)
+            scs.into_iter()
+                .filter(|sc| {
+                    points.get(sc.point).is_some_and(|n| {
+                        n.contains("after:commit") || n.contains("push") || (sc.fault == Fault::Stop && (n.contains("meta-written") || (n.contains("after:add") && n.ends_with("/meta"))))
+                    })
+                })
+                .map(|mut sc| {
+                    sc.short = true;
+                    sc
+                })
+                .collect()
+        } else {
+            scs
+        };
         let mut nontrivial = 0u64;
         let mut done = 0u64;
         for sc in &scs {
